@@ -80,6 +80,10 @@ def tstep (s : State) (args : List String) : Option (State × String) :=
   | ["treport"] =>
     let spec := if termsAcyclic (s.th.scratch TL) then showTReport (s.th.scratch TL) else "n/a"
     some (s, s!"{showTReport s.th}\t{spec}")
+  -- replay of a history OUTSIDE the admissible class (`histTextDup` of Properties/C07.lean: shared alias erased):
+  -- correspondence code = model only, for the incremental state and for the rebuilt one; no oracle
+  | ["treportx"] => some (s, s!"{showTReport s.th}\tn/a")
+  | ["tscratchx"] => some (s, s!"{showTReport (s.th.scratch TL)}\tn/a")
   | _ => none
 end TextLayer
 
